@@ -958,3 +958,134 @@ def rule_l(ctx: Ctx) -> None:
     ctx.count("re_calls_scanned", n)
     ctx.count("patterns_built_at_run_time", n_dyn)
     ctx.min_instances("re_calls_scanned", n, 10)
+
+
+# ------------------------------------------------------------------------------------------ C05.m
+# Cursor-relative subscripts of the token list: tokens[i], tokens[self._index + k], tokens[self._index - k].
+
+TOKEN_LISTS = {"tokens", "self._tokens", "raw_tokens", "self.tokens"}
+SIZE_NAMES = {"size", "self._tokens_size", "self.size"}
+
+# (module:qualname, normalised subscript) -> reason
+REVIEWED_TOKEN_INDEX: dict[tuple[str, str], str] = {
+    ("sqlglot.jsonpath:parse.<locals>._prev", "tokens[i - 1]"):
+        "_prev() is only called by _advance() right after `i += 1` and by callers that have just matched a token, so 1 <= i <= size",
+    ("sqlglot.jsonpath:parse", "tokens[i]"):
+        "else-branch of the match chain inside `while _curr():` — every preceding _match* failed, so i is unchanged since _curr() returned a token type (i < size)",
+    ("sqlglot.parser:Parser._advance", "tokens[index - 1]"):
+        "guarded by index > 0; the upper bound index - 1 < size is the obligation of every caller, decided by rule C05.j",
+    ("sqlglot.parser:Parser._parse_hint_fallback_to_string", "self._tokens[self._index - 1]"):
+        "reached after `while self._curr: self._advance()`; a hint token list is never empty (the tokenizer only emits HINT with text), and a negative index wraps instead of raising",
+}
+
+
+def _bound_guard(test: ast.AST, lab: bool, idx: str, recv: str) -> bool:
+    """`test` evaluating to lab implies idx < len(recv)"""
+    for atom, alab in _atoms(test, lab):
+        if not (isinstance(atom, ast.Compare) and len(atom.ops) == 1):
+            continue
+        l, op, r = norm(atom.left), atom.ops[0], norm(atom.comparators[0])
+        sizes = SIZE_NAMES | {f"len({recv})"}
+        if l == idx and r in sizes and ((isinstance(op, ast.Lt) and alab) or (isinstance(op, ast.GtE) and not alab)):
+            return True
+        if r == idx and l in sizes and ((isinstance(op, ast.Gt) and alab) or (isinstance(op, ast.LtE) and not alab)):
+            return True
+    return False
+
+
+def rule_m(ctx: Ctx) -> None:
+    from . import c05_loops
+
+    ctx.rule(
+        "C05.m",
+        "cursor-relative subscripts of the token list: tokens[<i + k>] is guarded by `<i + k> < size` (same expression) on the path to it; "
+        "tokens[<cursor> - k] is reached only after >= k tokens were consumed in the same method or under an explicit lower-bound test",
+    )
+    model = c05_loops._model(ctx)
+    n = 0
+    for m in ctx.repo.modules.values():
+        if not (m.name in SCOPE_EXACT or m.name.startswith(SCOPE_PREFIX)):
+            continue
+        for s_ in m.of_type(ast.Subscript):
+            if not isinstance(s_.ctx, ast.Load) or norm(s_.value) not in TOKEN_LISTS or isinstance(s_.slice, ast.Slice) or _need(s_.slice) is not None:
+                continue
+            f = m.enclosing_func(s_)
+            if f is None:
+                continue
+            n += 1
+            where, txt, idx, recv = f.key, norm(s_, 70), norm(s_.slice), norm(s_.value)
+            inst = f"{where}|{txt}|{_ordinal(f.node, s_)}"
+            ok, why = False, ""
+            back = isinstance(s_.slice, ast.BinOp) and isinstance(s_.slice.op, ast.Sub) and isinstance(s_.slice.right, ast.Constant) and isinstance(s_.slice.right.value, int)
+            # guards on the path: enclosing If / IfExp / and-chain
+            cur: ast.AST = s_
+            p = m.parent(cur)
+            while p is not None and p is not f.node:
+                conds: list[tuple[ast.AST, bool]] = []
+                if isinstance(p, ast.IfExp) and (cur is p.body or cur is p.orelse):
+                    conds.append((p.test, cur is p.body))
+                if isinstance(p, ast.If) and (any(cur is x for x in p.body) or any(cur is x for x in p.orelse)):
+                    conds.append((p.test, any(cur is x for x in p.body)))
+                if isinstance(p, ast.BoolOp) and cur in p.values:
+                    for prev in p.values[: p.values.index(cur)]:
+                        conds.append((prev, isinstance(p.op, ast.And)))
+                for ce, lb in conds:
+                    if not back and _bound_guard(ce, lb, idx, recv):
+                        ok, why = True, f"guarded by `{norm(ce, 50)}`"
+                    if back:
+                        k = s_.slice.right.value
+                        base = norm(s_.slice.left)
+                        for atom, alab in _atoms(ce, lb):
+                            if isinstance(atom, ast.Compare) and len(atom.ops) == 1 and norm(atom.left) == base and isinstance(atom.comparators[0], ast.Constant):
+                                c0 = atom.comparators[0].value
+                                if (isinstance(atom.ops[0], ast.GtE) and alab and c0 >= k) or (isinstance(atom.ops[0], ast.Gt) and alab and c0 >= k - 1) or (isinstance(atom.ops[0], ast.Lt) and not alab and c0 >= k):
+                                    ok, why = True, f"guarded by `{norm(atom, 40)}`"
+                if ok or isinstance(p, (ast.FunctionDef, ast.Lambda)):
+                    break
+                cur, p = p, m.parent(p)
+            if not ok and not back:
+                # early-exit guard earlier in the same block: `if <idx> >= size: raise/return/continue/break`
+                st = m.enclosing_stmt(s_)
+                blk = m.parent(st) if st is not None else None
+                while st is not None and blk is not None and not ok:
+                    for fld in ("body", "orelse", "finalbody"):
+                        seq = getattr(blk, fld, None)
+                        if isinstance(seq, list) and st in seq:
+                            for prev_st in seq[: seq.index(st)]:
+                                if isinstance(prev_st, ast.If) and prev_st.body and isinstance(prev_st.body[-1], (ast.Raise, ast.Return, ast.Continue, ast.Break)) and not prev_st.orelse:
+                                    # falling through means the test was false
+                                    if _bound_guard(prev_st.test, False, idx, recv):
+                                        between = seq[seq.index(prev_st) + 1: seq.index(st)]
+                                        if not any(isinstance(x, ast.Name) and x.id == idx and isinstance(x.ctx, ast.Store) for b_ in between for x in ast.walk(b_)):
+                                            ok, why = True, f"after the early exit `if {norm(prev_st.test, 40)}`"
+                    if isinstance(blk, (ast.FunctionDef, ast.AsyncFunctionDef)):
+                        break
+                    st, blk = blk, m.parent(blk)
+            if not ok and isinstance(s_.slice, ast.Name):
+                # alias of <cursor> - k with an explicit lower-bound test on the path (`0 if v < 0 else tokens[v]`)
+                defs = [a_.value for a_ in walk_no_nested(f.node) if isinstance(a_, ast.Assign) and len(a_.targets) == 1 and norm(a_.targets[0]) == idx]
+                if defs and all(isinstance(d_, ast.BinOp) and isinstance(d_.op, ast.Sub) and isinstance(d_.right, ast.Constant) and norm(d_.left) in ("i", "self._index") for d_ in defs):
+                    cur2: ast.AST = s_
+                    p2 = m.parent(cur2)
+                    while p2 is not None and p2 is not f.node and not ok:
+                        if isinstance(p2, ast.IfExp) and cur2 is p2.orelse:
+                            for atom, alab in _atoms(p2.test, False):
+                                if isinstance(atom, ast.Compare) and norm(atom.left) == idx and isinstance(atom.ops[0], ast.Lt) and not alab and norm(atom.comparators[0]) == "0":
+                                    ok, why = True, f"alias of the cursor minus a constant, lower bound tested by `{norm(p2.test, 30)}`"
+                        cur2, p2 = p2, m.parent(p2)
+            if not ok and back and norm(s_.slice.left) == "self._index" and f.cls is not None:
+                g = model.cfg(f.node)
+                IN, _ = model.flow(g, g.entry, {})
+                have = min((IN[x][0] for x in g.nodes_for(s_) if x in IN), default=0)
+                if have >= min(2, s_.slice.right.value):
+                    ok, why = True, f">= {have} tokens consumed on every path from the method entry"
+            if ok:
+                ctx.ok(inst, {"site": txt, "in": where, "protected": why})
+            elif (where, txt) in REVIEWED_TOKEN_INDEX:
+                ctx.ok(inst, {"site": txt, "in": where, "reviewed": REVIEWED_TOKEN_INDEX[(where, txt)]})
+            else:
+                ctx.fail(m, s_, where, txt,
+                         f"`{txt}` indexes the token list at a cursor-relative position without a bound check on the path to it: at the end (or start) of the input "
+                         f"the index is out of range and IndexError leaks")
+    ctx.count("cursor_relative_subscripts", n)
+    ctx.min_instances("cursor_relative_subscripts", n, 12)
